@@ -49,6 +49,87 @@ def premise_ok(reftool, kind, seqs, dup_indices):
     return all(x >= 1 for x in d), (min(d) if d else None)
 
 
+def _subst_other_class(rng, c, alpha, kind):
+    for _ in range(50):
+        x = rng.choice(alpha)
+        if reduce_seq(x, kind) != reduce_seq(c, kind):
+            return x
+    return c
+
+
+def gen_case_long(rng, reftool):
+    """long duplicated sequence plus (a) short near-fragments of it, non-contained, and (b) relatives placed at
+    special edit distances (integer-width boundaries 255/256/257/512/1024 and multiples of 64)"""
+    kind = rng.choice(["dna", "protein", "rna"])
+    alpha = {"dna": gen.DNA, "rna": gen.RNA, "protein": gen.AA}[kind]
+    L = rng.choice([300, 521, 700, 991, 1500, 2400])
+    if rng.random() < 0.4:
+        unit = gen.rand_seq(rng, rng.randint(2, 9), alpha)
+        S = gen.mutate(rng, (unit * (L // len(unit) + 1))[:L], alpha, 0.05, 0.0)
+    else:
+        S = gen.rand_seq(rng, L, alpha)
+    if kind == "protein":
+        S = "".join(c if rng.random() < 0.6 else rng.choice(gen.AA_ONLY) for c in S)
+    others = []
+    mode = rng.choice(["fragments", "special", "both"])
+    if mode in ("fragments", "both"):
+        for _ in range(rng.randint(2, 6)):
+            lb = rng.randint(40, max(41, int(L * 0.7)))
+            off = rng.randint(0, L - lb)
+            frag = list(S[off:off + lb])
+            for _ in range(rng.randint(1, 9)):
+                i = rng.randrange(len(frag))
+                frag[i] = _subst_other_class(rng, frag[i], alpha, kind)
+            others.append("".join(frag))
+    if mode in ("special", "both"):
+        pool = rng.choice([[64, 128, 192, 255, 256, 257, 512, 768, 1024], [256, 512], [256], [255, 257, 1024], [128, 64]])
+        for _ in range(rng.randint(2, 4)):
+            target = rng.choice(pool)
+            lb = rng.randint(max(target + 20, int(L * 0.6)), L - 1) if L - 1 > target + 20 else None
+            if lb is None:
+                continue
+            off = rng.randint(0, L - lb)
+            x = list(S[off:off + lb])
+            # a few indels first, so that aligning the relative with a copy needs internal gaps
+            for _ in range(rng.randint(0, 6)):
+                i = rng.randrange(1, len(x) - 1)
+                if rng.random() < 0.5:
+                    del x[i:i + rng.randint(1, 4)]
+                else:
+                    x[i:i] = [rng.choice(alpha) for _ in range(rng.randint(1, 4))]
+            lb = len(x)
+            pos = list(range(lb))
+            rng.shuffle(pos)
+            changed = 0
+            want = target
+            for it in range(6):
+                # apply substitutions until the independent distance hits the target exactly
+                need = want - changed
+                d = sgdist_batch(reftool, [(reduce_seq(S, kind), reduce_seq("".join(x), kind))])[0]
+                if d == target:
+                    break
+                step = target - d
+                if step > 0:
+                    for _ in range(step):
+                        if not pos:
+                            break
+                        i = pos.pop()
+                        x[i] = _subst_other_class(rng, x[i], alpha, kind)
+                else:
+                    break
+            if sgdist_batch(reftool, [(reduce_seq(S, kind), reduce_seq("".join(x), kind))])[0] == target:
+                others.append("".join(x))
+    others = [o for o in others if o != S]
+    if not others:
+        others = [gen.mutate(rng, S, alpha, 0.3, 0.02)]
+    mult = rng.randint(2, 3)
+    seqs = others + [S] * mult
+    rng.shuffle(seqs)
+    names = gen.names(rng, len(seqs), "s")
+    dup_idx = [i for i, s in enumerate(seqs) if seqs.count(s) > 1]
+    return kind, list(zip(names, seqs)), dup_idx
+
+
 def gen_case(rng):
     kind = rng.choice(["dna", "protein", "protein", "rna"])
     alpha = {"dna": gen.DNA, "rna": gen.RNA, "protein": gen.AA}[kind]
@@ -86,7 +167,11 @@ def gen_case(rng):
 
 def run_case(ck, paths, reftool, idx):
     rng = ck.rng.__class__(ck.seed * 32452843 + idx)
-    kind, recs, dup_idx = gen_case(rng)
+    if idx % 4 == 3:
+        kind, recs, dup_idx = gen_case_long(rng, reftool)
+        ck.count("inputs_long_duplicate_with_fragments_or_special_distances")
+    else:
+        kind, recs, dup_idx = gen_case(rng)
     seqs = [s for _, s in recs]
     if not dup_idx:
         ck.count("skipped_no_duplicates")
@@ -137,7 +222,8 @@ def run(ck, tier):
     sc = getattr(ck, "scale", 1.0)
     n = int((150 if tier == "quick" else 4000) * sc)
     common.pmap(lambda i: run_case(ck, paths, reftool, i), range(n), workers=12)
-    ck.rule = ("families of 2..99 sequences with 1..4 duplicated members of multiplicity 2..6 at random positions under distinct names (plus near-duplicates "
+    ck.rule = ("(every fourth case: a duplicated sequence of 300..2400 residues with short non-contained near-fragments of it and/or relatives placed at edit distances "
+               "64/128/255/256/257/512/768/1024 from it, incl. low-complexity) families of 2..99 sequences with 1..4 duplicated members of multiplicity 2..6 at random positions under distinct names (plus near-duplicates "
                "differing inside a similarity class, which the premise check must exclude); premise checked independently with a semi-global edit distance on "
                "the class-reduced alphabet (ref/reftool.c); all admissible types; threads 1/4/16. Non-trivial = output contains gaps and the premise held.")
     ck.assumptions = ["13-class reduction (L,M)(I,V)(K,R)(E,Q)(A,S,T)(N,D)(F,Y) as published; nucleotides: U=T, ambiguity codes = N", "sequence lengths < 5000"]
